@@ -286,6 +286,57 @@ class SelectorWorld:
             m["resolved"][k] = rv
         self.log.add("SET", name, sorted(op["params"]))
 
+    def op_READ(self, op, i):
+        """A public read between fits (get_support forms, distances, transform, score).
+        Reads must not disturb the state the next operation starts from."""
+        name = op["obj"]
+        obj = self.objs.get(name)
+        m = self.meta.get(name)
+        if obj is None or m is None or m["retired"] or m["ok_fits"] == 0:
+            return
+        meth = op["method"]
+        kw = dict(op.get("kwargs") or {})
+        args = []
+        if meth in ("transform", "score") and m.get("data"):
+            args.append(self.heap.get(m["data"][0]))
+            if meth == "score":
+                args.append(self.heap.get(m["data"][1]) if m["data"][1] else None)
+        try:
+            with self.env.op(None):
+                getattr(obj, meth)(*args, **kw)
+            self.log.add("READ", name, meth, "ok")
+            self.count("reads_ok")
+        except Exception as e:  # noqa: BLE001
+            self.log.add("READ", name, meth, "raise", type(e).__name__)
+            self.count("reads_raised")
+        last = m.get("last_ok")
+        if self.pid == "C01" and last is not None and not m.get("retired_for_warm"):
+            # the cross-view invariants still hold after the read
+            lop, lrec, n_before = last
+            X = self.heap.get(lop["X"])
+            y = self.heap.get(lop["y"]) if lop.get("y") else None
+            nv = len(self.violations)
+            saved = m["first_score"]
+            self.c01_invariants(name, obj, m, lop, lrec, X, y, n_before)
+            m["first_score"] = saved
+            for v in self.violations[nv:]:
+                v["detail"] = f"after a {meth}({kw}) read: " + v["detail"]
+                v["facts"]["after_read"] = meth
+
+    def op_MUTATE(self, op, i):
+        """The caller overwrites one of its own arrays in place (buffer reuse)."""
+        vals = D.make_array(op["recipe"])
+        if self.heap.mutate(op["h"], vals):
+            self.stats["fired"]["caller:buffer_reused"] += 1
+            self.log.add("MUTATE", op["h"])
+            for m in self.meta.values():
+                if m.get("data") and op["h"] in m["data"]:
+                    # the data of earlier fits is gone: a continuation on "the same data" is
+                    # no longer possible, and reads would see the new values
+                    m["retired_for_warm"] = True
+                    m["last_ok"] = None
+                    m["data_mutated"] = True
+
     def op_RESTART(self, op, i):
         name = op["obj"]
         obj = self.objs.get(name)
@@ -407,6 +458,7 @@ class SelectorWorld:
                 # itself legitimate is decided by comparing this fit with its cold twin below,
                 # but nothing after it belongs to the property's domain
                 m["c08_threshold_reached"] = True
+        m["last_ok"] = (op, rec, n_before)
         self.after_ok_fit(name, obj, m, op, rec, X, y, n_before)
 
     # ---- per-property oracles
